@@ -662,3 +662,81 @@ def r08_python(chk):
 
 
 check_finalize_path_uncond = check_finalize_path
+
+
+# --------------------------------------------------------------------------
+# remove_null_cols: the active set is the sparsity structure of the first matrix
+
+NULLCOL_IDIOMS = {
+    'np.unique(m.nonzero()[1])': 'column indices of the structurally non-zero entries',
+    'np.unique(m.indices)': 'CSR column indices',
+    'np.flatnonzero(m.getnnz(axis=0))': 'columns with stored entries',
+    'np.where(m.getnnz(axis=0)>0)[0]': 'columns with stored entries',
+    'np.nonzero(m.getnnz(axis=0))[0]': 'columns with stored entries',
+}
+
+
+def check_remove_null_cols(chk, rule):
+    """the index set kept by remove_null_cols is read from the structure of the first matrix (accepted idioms
+    enumerated above), never from values (sums cancel, tolerances depend on units); every matrix is reduced by
+    that same set in rows and columns and the set is returned last"""
+    m = module('compmech/sparse.py')
+    fn = m.function('remove_null_cols')
+    defs = local_defs(fn)
+    ud = [v for v in defs.get('used_cols', []) if v is not None]
+    got = None
+    ok = False
+    if len(ud) == 1:
+        got = norm(ud[0])
+        if got == 'np.unique(cols)':
+            # rows, cols = m.nonzero()
+            for n in ast.walk(fn):
+                if isinstance(n, ast.Assign) and isinstance(n.targets[0], ast.Tuple) and [norm(e) for e in n.targets[0].elts][1:] == ['cols'] and norm(n.value) == 'm.nonzero()':
+                    got = 'np.unique(m.nonzero()[1])'
+        ok = got in NULLCOL_IDIOMS
+    chk.ob(rule, ok, 'compmech/sparse.py', 'remove_null_cols', 'active amplitudes = columns of the first matrix with stored entries',
+           expected=sorted(NULLCOL_IDIOMS), got=got or [norm(v) for v in ud],
+           detail='' if ok else 'an active set computed from values drops columns whose entries cancel or fall under a tolerance (and depends on the units of the matrix)',
+           sample='remove_null_cols: used_cols = %s' % got)
+    txt = norm(fn)
+    ok2 = 'm=m[used_cols,:]' in txt and 'm=m[:,used_cols]' in txt and 'args.append(used_cols)' in txt
+    chk.ob(rule, ok2, 'compmech/sparse.py', 'remove_null_cols', 'same index set for rows and columns of every matrix, returned last')
+    return ok and ok2
+
+
+def check_unconditional_recompute(chk, rule, rel, cls, meth, floor):
+    """every request recomputes the matrices it hands to the solver: the self.calc_* calls of the entry point
+    are not guarded by the state of a cached result"""
+    m = module(rel)
+    fn = m.method(cls, meth)
+    n = 0
+    for c in pyflow.calls_in(fn):
+        if isinstance(c.func, ast.Attribute) and dotted(c.func.value) == 'self' and c.func.attr.startswith('calc_'):
+            bad = [norm(t) for t, pol in enclosing_tests(fn, c) if re.search(r'self\.(k0|kM|kG0|kA|cA|kT|k0_conn|fext)(is|==|!=|\b)', norm(t))]
+            n += 1
+            chk.ob(rule, not bad, rel, '%s.%s' % (cls, meth), 'self.%s recomputed on every request' % c.func.attr, line=c.lineno,
+                   expected='not guarded by a test on a cached matrix', got=bad,
+                   detail='' if not bad else 'a second request after the definition changed (density, thickness, loads) reuses the stale matrix',
+                   sample='%s.%s: self.%s() unconditional w.r.t. cached results' % (cls, meth, c.func.attr))
+    chk.floor('%s calc calls of %s.%s' % (rule, cls, meth), n, floor)
+
+
+def check_conn_cache(chk, rule):
+    """PanelAssembly.get_k0_conn caches whatever it builds; the cache is what calc_k0, calc_kT and calc_fint add.
+    It therefore has to hold the finalized (symmetric) matrix: inside the class get_k0_conn is never asked for the
+    raw upper triangle (no finalize argument other than a literal True)"""
+    rel = 'compmech/panel/assembly/assembly.py'
+    m = module(rel)
+    n = 0
+    for name, fn in m.classes['PanelAssembly'].items():
+        for c in pyflow.calls_in(fn):
+            if isinstance(c.func, ast.Attribute) and c.func.attr == 'get_k0_conn' and dotted(c.func.value) == 'self':
+                mp, probs = bind(c, Sig(m.method('PanelAssembly', 'get_k0_conn'), drop_self=True))
+                fz = mp.get('finalize')
+                ok = fz is None or (isinstance(fz, ast.Constant) and fz.value is True)
+                n += 1
+                chk.ob(rule, ok and not probs, rel, 'PanelAssembly.' + name, 'connection matrix requested finalized', line=c.lineno,
+                       expected='self.get_k0_conn(conn=conn) (finalize left at its default True)', got=norm(c),
+                       detail='' if ok else 'get_k0_conn stores its result in self.k0_conn whatever the flag: after one raw request every later calc_kT / calc_fint / calc_k0 adds the upper triangle only',
+                       sample='PanelAssembly.%s: %s' % (name, norm(c)))
+    chk.floor(rule + ' get_k0_conn call sites', n, 2)
